@@ -2,6 +2,7 @@ package main
 
 import (
 	"fmt"
+	"os"
 	"runtime/debug"
 	"sort"
 	"strings"
@@ -115,6 +116,15 @@ func (w *worker) runPath(maxDepth int) (outcome string) {
 
 type depthLimit struct{}
 
+var dbgTrails *os.File
+var dbgMu sync.Mutex
+
+func init() {
+	if p := os.Getenv("GOITSYM_TRAILS"); p != "" {
+		dbgTrails, _ = os.Create(p)
+	}
+}
+
 func (w *worker) recordPanic(msg string) {
 	c := w.ctx
 	m := c.model
@@ -141,6 +151,15 @@ func (w *worker) explore(res *HarnessResult, deadline time.Time, sampleEvery int
 	for {
 		out := w.runPath(0)
 		c.stats.Paths++
+		if dbgTrails != nil {
+			sig := ""
+			for _, d := range c.trail {
+				sig += fmt.Sprintf("%d/%d,", d.Cur, len(d.Order))
+			}
+			dbgMu.Lock()
+			fmt.Fprintln(dbgTrails, sig, out)
+			dbgMu.Unlock()
+		}
 		switch {
 		case out == "ok":
 			if c.reachedEnd {
@@ -278,30 +297,33 @@ func splitJobs(ld *Loaded, spec HarnessSpec, cfg *RunCfg, want int, res *Harness
 	defer w.ctx.sol.Close()
 	c := w.ctx
 	depth := 2
-	var jobs [][]*Decision
-	for iter := 0; iter < 7; iter++ {
+	var jobs, prevJobs [][]*Decision
+	t0 := time.Now()
+	const splitCap = 12 * time.Second
+	for iter := 0; iter < 12; iter++ {
+		prevJobs = jobs
 		jobs = nil
 		c.trail = nil
 		c.viol = nil
 		*c.stats = Stats{Funcs: map[string]int64{}, AssertsByMsg: map[string]int{}}
 		complete := true
-		n := 0
 		for {
 			out := w.runPath(depth)
-			n++
 			if out == "depth" {
 				complete = false
 			}
-			// (a path that finished above the cut is kept as its own cheap job so that a worker counts it once)
+			// every prefix of the cut is a job (a path that finished above the cut is kept as its own cheap job so that a
+			// worker counts it once); the enumeration of one depth is never abandoned half-way: that would lose sub-trees
 			jobs = append(jobs, cloneFrozen(c.trail))
 			if !c.advance() {
 				break
 			}
-			if n > want*4 {
-				break
+			if prevJobs != nil && time.Since(t0) > splitCap {
+				// the split itself is getting expensive (few, solver-heavy paths): fall back to the last COMPLETE cut
+				return prevJobs
 			}
 		}
-		if complete || len(jobs) >= want {
+		if complete || len(jobs) >= want || time.Since(t0) > splitCap {
 			break
 		}
 		depth += 2
